@@ -42,3 +42,11 @@ for cls, own in PAIRS.items():
                  loops={0: dict(invariant=["keys_are(d)"], modifies=["all:Dict(Str, Any)"])} if cls == "EquivalencePathRule" else {},
                  modifies=["all:Dict(Str, Any)"],
                  notes="consumes exactly the keys the serialiser wrote (the trailing `assert not d` is an obligation)")
+
+# VerificationRule.from_dict: the rule is REBUILT by the deserialised strategy (a verification rule may have children that
+# only the strategy can recompute: they are not part of the JSON form)
+provider("loaded_strategy", args=[Any], arg_names=["comb_class"], returns=Any)
+_vr = REG.contracts["VerificationRule.from_dict"]
+_vr.ghost = {"loaded": Fun("loaded_strategy")}
+_vr.call_models = {"AbstractStrategy.from_dict": "loaded"}
+_vr.ensures = list(_vr.ensures) + ['result == last_result("prov:loaded_strategy")']
